@@ -111,6 +111,42 @@ def _observables():
     return First(), Second()
 
 
+def _reuse(st, system):
+    """history step: the SAME observable objects on the SAME (unmodified) sample tensor after the state changed, and two different
+    observables that share one display symbol: every evaluation reports the statistics of what apply() returns now"""
+    import torch
+    from qucumber.observables import ObservableBase, System
+
+    class Scaled(ObservableBase):
+        def apply(self, nn_state, samples):
+            return samples[:, 0] * nn_state.scale + samples[:, 1]
+
+    class Summed(ObservableBase):
+        def apply(self, nn_state, samples):
+            return samples.sum(1) * nn_state.scale
+
+    a, b = Scaled(), Summed()
+    b.symbol = a.symbol
+    samples = torch.tensor([[1.0, 0.0, 1.0], [0.0, 1.0, 1.0], [1.0, 1.0, 0.0], [1.0, 1.0, 1.0], [0.0, 0.0, 1.0]], dtype=torch.double)
+    before = samples.clone()
+    sysm = System(a, b)
+    for scale in (1.0, 3.0, 3.0, -0.5):
+        st.scale = scale
+        if system:
+            got = sysm.statistics_from_samples(st, samples)
+        else:
+            got = {a.name: a.statistics_from_samples(st, samples), b.name: b.statistics_from_samples(st, samples)}
+        for ob in (a, b):
+            mean, var, err, n = _onepass(ob.apply(st, before.clone()).numpy())
+            r = got[ob.name]
+            if int(r["num_samples"]) != n or not _close(r["mean"], mean) or not _close(r["variance"], var) or not _close(r["std_error"], err):
+                return False, "re-evaluation on the same samples (state scale %r): %s reports mean %r variance %r, apply() gives mean %r variance %r" % (
+                    scale, ob.name, float(r["mean"]), float(r["variance"]), mean, var)
+        if not torch.equal(samples, before):
+            return False, "statistics_from_samples modified the caller's samples"
+    return True, ""
+
+
 def _onepass(vals):
     vals = np.asarray(vals, dtype=float)
     n = len(vals)
@@ -157,6 +193,8 @@ def schedule(I, system=False, user_chains=0, overwrite=False, composite=False, i
         o1, comb = o1 * (1.0 / 3.0) + 1.0e6, (lambda x: x * (1.0 / 3.0) + 1.0e6)
     elif composite:
         o1, comb = 3 - 2 * o1, (lambda x: 3 - 2 * x)
+    if system and not composite:
+        o2.symbol = o1.symbol  # two different observables may share a display symbol: results are per observable
     kw = dict(num_chains=num_chains, burn_in=burn_in, steps=steps)
     init = None
     if user_chains:
@@ -212,7 +250,7 @@ def schedule(I, system=False, user_chains=0, overwrite=False, composite=False, i
             return False, "%s: variance %r vs one-pass %r" % (ob.name, res["variance"], var)
         if not _close(res["std_error"], err):
             return False, "%s: std_error %r vs one-pass %r" % (ob.name, res["std_error"], err)
-    return True, ""
+    return _reuse(st, system)
 
 
 def specs(tier):
